@@ -82,3 +82,4 @@ Example C13_nonvacuous :
      PDict false [(PStr "a", PList [PInt 7; PStr "list"]);
                   (PStr "p", PDict false [(PStr "RED", PList [PStr "a/b"; PList [PInt 4; PInt 3]])])].
 Proof. vm_compute. repeat split; reflexivity. Qed.
+Print Assumptions C13_nonvacuous.
